@@ -110,7 +110,9 @@ class SymState:
 
     def __eq__(self, other):
         if isinstance(other, SymState):
-            raise Concretized("SymState == SymState")
+            if not forkexec.active():
+                raise Concretized("SymState == SymState outside forkexec.explore")
+            return forkexec.decide(states_equal(self, other))
         return self._concretize() == other
 
     def __ne__(self, other):
